@@ -44,6 +44,10 @@ pub enum Node {
     /// completion - owed to a select that is over - travels while the second select's own query is
     /// being answered "not finished yet" by the same worker: (arg+5)*100 + arg+6
     SelTwice,
+    /// one select over two processes (wherever they are placed): the first finishes at some moment
+    /// around the select's query exchange, the second cannot finish before the select is over (it is
+    /// released afterwards): (arg+3)*31 + 5
+    SelRace { spin: u32 },
 }
 
 pub struct Gen {
@@ -102,7 +106,11 @@ impl Gen {
             9 => {
                 *budget -= 1;
                 if rng.chance(1, 4) {
-                    if rng.chance(1, 2) { Node::RefKids } else { Node::SelTwice }
+                    match rng.below(3) {
+                        0 => Node::RefKids,
+                        1 => Node::SelTwice,
+                        _ => Node::SelRace { spin: *rng.pick(&[0u32, 0, 3, 8, 20, 60]) },
+                    }
                 } else if rng.chance(1, 3) {
                     Node::BareReply { tail: rng.chance(2, 3) }
                 } else {
@@ -228,6 +236,12 @@ impl Gen {
                 self.defs.push(format!("{name} = #'int {{ =n, c = n @#'int {{ =m, {sp}[[0x0a0b, {reps}] __binary_repeat__, 0xff] __binary_concat__ }}, b = !c, [b __binary_length__, n] __integer_add__ }}"));
                 name
             }
+            Node::SelRace { spin } => {
+                self.procs += 2;
+                let name = self.fresh();
+                self.defs.push(format!("{name} = #'int {{ =n, t1 = n @#'int {{ =m, w = [{spin}, 0] spin, [m, 3] __integer_add__ }}, t2 = @blk, r = ! [t1, t2], 5 t2, [[r, 31] __integer_multiply__, !t2] __integer_add__ }}"));
+                name
+            }
             Node::SelTwice => {
                 self.procs += 3;
                 let name = self.fresh();
@@ -302,6 +316,7 @@ pub fn eval(node: &Node, arg: i128) -> i128 {
         Node::BareReply { tail } => arg + 7 + *tail as i128,
         Node::RefKids => arg + 1,
         Node::SelTwice => (arg + 5) * 100 + arg + 6,
+        Node::SelRace { .. } => (arg + 3) * 31 + 5,
         Node::SelDone { a, b, swap } => {
             let (va, vb) = (eval(a, arg + 1), eval(b, arg + 2));
             let (first, second) = if *swap { (vb, va) } else { (va, vb) };
@@ -369,6 +384,10 @@ pub fn shape(node: &Node, h: &mut crate::rng::Fnv) {
         }
         Node::RefKids => h.u64(11),
         Node::SelTwice => h.u64(12),
+        Node::SelRace { spin } => {
+            h.u64(13);
+            h.u64(*spin as u64);
+        }
     }
 }
 
